@@ -54,15 +54,24 @@ def main():
             st["mutants"] += 1
             desc = "%s:%d %s(): %s   | %s" % (f, i + 1, func, what, ml.strip()[:110])
             hit = None
-            for chk in ORDER[f]:
-                r = subprocess.run([os.path.join(V, "check"), chk, "quick"], capture_output=True, text=True, env=env, cwd=V)
-                if r.returncode != 0:
-                    hit = (chk, "violation" if r.returncode == 1 else "harness-error")
-                    break
+            # the checks run four at a time; the first (in ORDER) that reports decides
+            from concurrent.futures import ThreadPoolExecutor
+
+            def one(chk):
+                try:
+                    r = subprocess.run([os.path.join(V, "check"), chk, "quick"], capture_output=True, text=True, env=dict(env, VERIF_EVIDENCE_DIR=os.path.join(tmp, "ev-" + chk)), cwd=V, timeout=400)
+                    return chk, r.returncode
+                except subprocess.TimeoutExpired:
+                    return chk, 3  # the mutant makes the workload hang case after case: noticed (every hang is a violation), just slowly
+            with ThreadPoolExecutor(max_workers=4) as ex:
+                for chk, rc in ex.map(one, ORDER[f]):
+                    if rc != 0 and not hit:
+                        hit = (chk, "violation" if rc == 1 else ("timeout" if rc == 3 else "harness-error"))
             if hit:
                 st["noticed"] += 1
                 report["by_check"][hit[0]] = report["by_check"].get(hit[0], 0) + 1
-                if hit[1] != "violation":
+                print("noticed by %s (%s): %s" % (hit[0], hit[1], desc), flush=True)
+                if hit[1] == "harness-error":
                     report["harness_error"] += 1
                     print("HARNESS %s %s" % (hit[0], desc), flush=True)
             else:
